@@ -44,6 +44,23 @@ def arm(ctx, rep, rule):
     agg = [vn for b_ in [rs] + facts.closures_of(rs.path) for (bi, st, f, vn) in flow.aggregate_inits(b_, "error::SnmpError")]
     rep.check(rule, "SnmpSocket::recv_socket|WouldBlock", "WouldBlock" in agg, "io::ErrorKind::WouldBlock -> SnmpError::WouldBlock",
               "recv_socket no longer reports WouldBlock", rs.loc(), obligation=True)
+    # every datagram that recv() returned goes on to the decoder: nothing after the Ok edge of recv's result ends in Err
+    # (an "empty read means nothing arrived" arm turns a zero-length datagram into a timeout instead of a decode error)
+    rp = flow.Prov(rs)
+    rsw = flow.discr_switches(rs, rp, lambda t: flow.mentions(t, lambda x: x[0] == "call" and (x[1] or "").endswith("Socket::recv")))
+    errb = set(flow.blocks_assigning_return(rs, lambda rv: rv["k"] == "agg" and rv.get("vname") == "Err"))
+    decided = False
+    for blk, term in rsw:
+        ve = flow.variant_edges(rs, blk) or {}
+        if "Ok" in ve and errb:
+            decided = True
+            from .. import cells as _cells
+            bad = _cells.variant_reach(rs, starts=[ve["Ok"]]) & errb
+            rep.check(rule, "SnmpSocket::recv_socket|received-is-delivered", not bad, "Ok(n) of recv always yields the datagram",
+                      "a successful recv() can end in an error (blocks %s): a received datagram - e.g. an empty one - is reported as a socket "
+                      "condition instead of being handed to the decoder" % sorted(bad), rs.loc(blk.term.get("line")), obligation=True)
+    if not decided:
+        rep.inconclusive(rule, "SnmpSocket::recv_socket|received-is-delivered", "no match on the result of recv() found in this shape", rs.loc())
     # the three constructors hand their timeout_ns to get_socket
     for cls, idx, want in (("socket::v1::SnmpV1ClientSocket", 4, 6), ("socket::v2c::SnmpV2cClientSocket", 4, 6), ("socket::v3::SnmpV3ClientSocket", 4, 11)):
         nb = facts.need(cls + "::new")
@@ -134,3 +151,30 @@ def _cycle_without(body, head, blocks, cut):
             if s in blocks:
                 work.append(s)
     return False
+
+
+def gil_released(ctx, rep, rule):
+    """The blocking receive runs with the interpreter lock released: every call of SnmpSocket::_recv_inner sits in a closure
+    handed to Python::allow_threads.  A receive that keeps the lock stalls every other Python thread for up to the whole
+    timeout - their own deadlines (an asyncio loop in another thread, a second session) pass while they cannot run."""
+    facts = ctx.facts
+    from .. import cells as _cells
+    n = 0
+    for body in facts.body_list:
+        for b in body.calls():
+            if not (callee_path(b.term) or "").endswith("::_recv_inner"):
+                continue
+            n += 1
+            ok = False
+            why = "called from %s, which is not a closure" % body.path.split("::")[-1]
+            if body.kind == "Closure":
+                feed = _cells.closure_feed(facts, body)
+                if feed is not None:
+                    cp = callee_path(feed[2].term) or ""
+                    ok = cp.endswith("::allow_threads")
+                    why = "the closure is handed to %s" % cp
+            rep.check(rule, "%s|_recv_inner under allow_threads" % body.path, ok, "interpreter lock released around the blocking receive",
+                      "the blocking receive runs while holding the interpreter lock (%s)" % why, body.loc(b.term["line"]), obligation=True)
+    if n < 2:
+        rep.violation(rule, "floor-recv-callers", "%d call sites of _recv_inner found, floor is 2" % n)
+
